@@ -326,11 +326,28 @@ def _cancellation(ctx, module, func, result) -> int:
         raise AnalysisError("poly_divmod: get_division_candidate not found")
     gparams = [a.arg for a in gfunc.args.args]
     x1, x2 = "π" + gparams[0], "π" + gparams[1]
+    seen_results = set()
     for path in ctx.paths_auto(module, gfunc):
-        last = path[-1]
-        if last.kind != "return" or not isinstance(last.node.value, ast.Tuple) or len(last.node.value.elts) != 4:
-            continue
-        i1, i2, inc, cand = (strip_tags(last.expand(e)) for e in last.node.value.elts)
+      # where a (idx1, idx2, include, candidate) result is produced: returned, or yielded / collected by a private
+      # generator that the function takes the first element of (next(gen, None))
+      producers = []
+      for step in path:
+        node = step.node
+        tup = None
+        if step.kind == "return" and isinstance(node.value, ast.Tuple):
+            tup = node.value
+        elif step.kind == "stmt" and isinstance(node, ast.Expr) and isinstance(node.value, ast.Yield) \
+                and isinstance(node.value.value, ast.Tuple):
+            tup = node.value.value
+        elif step.kind == "stmt" and isinstance(node, ast.Expr) and isinstance(node.value, ast.Call) \
+                and isinstance(node.value.func, ast.Attribute) and node.value.func.attr == "append" \
+                and len(node.value.args) == 1 and isinstance(node.value.args[0], ast.Tuple):
+            tup = node.value.args[0]
+        if tup is not None and len(tup.elts) == 4 and (id(tup), id(step.vars)) not in seen_results:
+            seen_results.add((id(tup), id(step.vars)))
+            producers.append((step, tup))
+      for last, tup in producers[:1]:
+        i1, i2, inc, cand = (strip_tags(last.expand(e)) for e in tup.elts)
         n += 1
         want_num = f"{x1}.coefficients[{U(i1)}]"
         want_den = f"{x2}.coefficients[{U(i2)}]"
